@@ -732,9 +732,19 @@ func (fc *FnCtx) applyContract(st *State, c *Contract, home *ContractSet, homePk
 	if j := strings.LastIndex(key, "/"); j >= 0 {
 		short = key[j+1:]
 	}
-	for _, r := range c.Requires {
-		g := env.evalBool(r.E)
-		fc.assertNamed(st, g, "pre("+short+")", r.Label, "precondition of "+key+": "+r.Text, pos)
+	for ri, r := range c.Requires {
+		parts := splitConjDeep(r.E, env)
+		for j, part := range parts {
+			g := env.evalBool(part)
+			label := r.Label
+			if label == "" {
+				label = fmt.Sprint(ri + 1)
+			}
+			if len(parts) > 1 {
+				label = fmt.Sprintf("%s.%d", label, j+1)
+			}
+			fc.assertNamed(st, g, "pre("+short+")", label, "precondition of "+key+": "+part.String(), pos)
+		}
 	}
 	pre := st.clone()
 	// callee's frame must be inside ours
@@ -939,6 +949,15 @@ func (fc *FnCtx) regionsOf(m *Clause, env *SpecEnv) []region {
 				vk, hk, vs, hs := fc.mapKeys(mt)
 				ck := "MC$" + fc.typeName(mt.Key()) + "$" + fc.typeName(mt.Elem())
 				return []region{{key: vk, sort: vs, base: mv.T}, {key: hk, sort: hs, base: mv.T}, {key: ck, sort: "(Array Int Int)", base: mv.T}}
+			case "mapsof": // mapsof(m): every map of m's type (needed when the map pointer itself may be replaced)
+				mv := env.eval(e.Args[0])
+				mt, ok := mv.Ty.Underlying().(*types.Map)
+				if !ok {
+					fc.fail(token.NoPos, "modifies %s: not a map", m.Text)
+				}
+				vk, hk, vs, hs := fc.mapKeys(mt)
+				ck := "MC$" + fc.typeName(mt.Key()) + "$" + fc.typeName(mt.Elem())
+				return []region{{key: vk, sort: vs}, {key: hk, sort: hs}, {key: ck, sort: "(Array Int Int)"}}
 			case "region": // region(name): a named whole heap array, e.g. region(H$container/list.Element$rk)
 				var out []region
 				for _, a := range e.Args {
@@ -951,7 +970,7 @@ func (fc *FnCtx) regionsOf(m *Clause, env *SpecEnv) []region {
 						srt = fc.eng.regionSorts[k]
 					}
 					if srt == "" {
-						srt = map[string]string{"$chanclosed": "(Array Int Bool)", "$condsleep": "(Array Int Int)", "$condwoken": "(Array Int Int)", "$held": heldSort}[k]
+						srt = map[string]string{"$chanclosed": "(Array Int Bool)", "$condsleep": "(Array Int Int)", "$condwoken": "(Array Int Int)", "$held": heldSort, "$alloc": "Int"}[k]
 					}
 					out = append(out, region{key: k, sort: srt})
 				}
@@ -1156,4 +1175,74 @@ func mentionsOld(e *SExpr) bool {
 		}
 	}
 	return false
+}
+
+// splitConjDeep: like splitConj, but also opens a top-level call of a pure (macro) function whose body
+// is a conjunction, by substituting the actual arguments (only when they are plain identifiers).
+func splitConjDeep(e *SExpr, env *SpecEnv) []*SExpr {
+	var out []*SExpr
+	for _, p := range splitConj(e) {
+		if p.Kind == SCall && p.Fun != nil && p.Fun.Kind == SIdent {
+			if pf, _ := env.findPure(p.Fun.Name); pf != nil && pf.Body != nil && len(pf.Params) == len(p.Args) {
+				ok := true
+				sub := map[string]*SExpr{}
+				for i, a := range p.Args {
+					if a.Kind != SIdent {
+						ok = false
+					}
+					sub[pf.Params[i].Name] = a
+				}
+				if ok {
+					body := substSExpr(pf.Body, sub)
+					parts := splitConj(body)
+					if len(parts) > 1 {
+						out = append(out, parts...)
+						continue
+					}
+				}
+			}
+		}
+		out = append(out, p)
+	}
+	return out
+}
+
+func substSExpr(e *SExpr, sub map[string]*SExpr) *SExpr {
+	if e == nil {
+		return nil
+	}
+	if e.Kind == SIdent {
+		if r, ok := sub[e.Name]; ok {
+			return r
+		}
+		return e
+	}
+	n := *e
+	if e.Kind == SQuant {
+		// bound variables shadow
+		inner := map[string]*SExpr{}
+		for k, v := range sub {
+			inner[k] = v
+		}
+		for _, v := range e.Vars {
+			delete(inner, v.Name)
+		}
+		sub = inner
+	}
+	n.Args = make([]*SExpr, len(e.Args))
+	for i, a := range e.Args {
+		n.Args[i] = substSExpr(a, sub)
+	}
+	if e.Fun != nil && e.Kind == SCall {
+		n.Fun = e.Fun // function names are not substituted
+	}
+	if len(e.Trigs) > 0 {
+		n.Trigs = make([][]*SExpr, len(e.Trigs))
+		for i, tr := range e.Trigs {
+			for _, t := range tr {
+				n.Trigs[i] = append(n.Trigs[i], substSExpr(t, sub))
+			}
+		}
+	}
+	return &n
 }
